@@ -36,7 +36,10 @@ PLAN = {
     "C05": dict(
         mc=[("MC_Conc.cfg", {"MaxMsgs": 5, "MaxActs": 3})],
         sim=[("MC_Conc.cfg", [1], 1, {"NCtx": 4, "MaxActs": 5, "MaxMsgs": 10, "MaxBlocks": 3, "MaxDepth": 3, "Feat": '{"spawn", "ctx", "run", "finish"}'})],
-        profiles=[dict(feat={"spawn", "ctx", "run", "finish", "task"}, nctx=4, ndest=1, init=[1], maxlen=50, weights={"Spawn": 4.0})]),
+        profiles=[dict(feat={"spawn", "ctx", "run", "finish", "task"}, nctx=4, ndest=1, init=[1], maxlen=50, weights={"Spawn": 4.0}),
+                  # the same actions entered (context() / run()) from several contexts at overlapping times, left in any order
+                  dict(feat={"spawn", "ctx", "run"}, nctx=4, ndest=1, init=[1], maxlen=45, w_fin_ctx=0.6,
+                       weights={"Spawn": 5.0, "EnterCtx": 3.0, "EnterRun": 3.0, "StartAction": 0.7, "EnterWith": 0.6, "Exit": 2.0, "Log": 1.0})]),
     "C06": dict(
         mc=[("MC_Remote.cfg", {"MaxActs": 3, "MaxMsgs": 5})],
         sim=[("MC_Remote.cfg", [1], 1, {"NCtx": 3, "MaxActs": 5, "MaxMsgs": 10, "MaxIds": 3, "MaxDepth": 3, "MaxBlocks": 3,
@@ -55,9 +58,10 @@ PLAN = {
         sim=[("MC_Faults.cfg", [1, 2, 3, 4], 4, {"NDest": 4, "MaxActs": 3, "MaxMsgs": 8, "MaxFaults": 6, "InitDests": "D1234",
                                                  "Feat": '{"finish", "ctx", "dfault", "task"}'})],
         profiles=[dict(feat={"finish", "ctx", "task", "tb"}, ndest=4, init=[1, 2, 3, 4], dfault=0.35, maxlen=30, fault_file=True),
-                  dict(feat={"finish", "ctx", "task", "dests"}, ndest=4, init=[], dfault=0.3, maxlen=30, fault_file=True)]),
+                  dict(feat={"finish", "ctx", "task", "dests"}, ndest=4, init=[], dfault=0.3, maxlen=30, fault_file=True)],
+        extra="c08_concurrent"),
     "C12": dict(
-        mc=[("MC_Dests.cfg", {"NDest": 3, "MaxMsgs": 3})],
+        mc=[("MC_Dests.cfg", {"MaxMsgs": 4})],
         sim=[("MC_Dests.cfg", [], 3, {"NDest": 3, "MaxActs": 2, "MaxMsgs": 9, "Cap": 3, "Feat": '{"dests", "dfault", "finish"}', "MaxFaults": 2})],
         profiles=[dict(feat={"dests", "finish", "task"}, ndest=4, init=[], maxlen=35, dfault=0.1, fault_file=True,
                        weights={"AddDests": 1.0})],
